@@ -32,6 +32,8 @@ import MalVerif.Py.AbsLangGraph
 import MalVerif.Py.GenNeo4j.IngestModel
 import MalVerif.Py.GenNeo4j.IngestGraph
 import MalVerif.Py.GenNeo4j.GetModel
+import MalVerif.Py.GenMSerial.ToDict
+import MalVerif.Py.GenMSerial.FromDict
 open Lean MalVerif
 
 namespace Drv
@@ -1419,6 +1421,275 @@ def opGenNeo4jGraph (j : Json) : R Json := do
   | .ok w => pure (jO [("sub", dbToJson w.db), ("objs", jN w.objs.length)])
 
 end GenXNeo
+/-! #### `genexec2` / serialisers (tag `serial`): the documents of the generated `graph__to_dict` and the generated
+`graph__from_dict` on REAL documents (notes/NOTES_genexec2_serial.md).  Ordered rendering of Python values (Lean's `Json`
+objects sort their keys): a dictionary is `["d", [[key, value], …]]` (keys: JSON numbers for `int`, strings for `str`), a
+list `["l", […]]`, a `ttc` dictionary `["t", [[key, text], …]]` (the `PyDictS` convention: the value under `name` is the
+string itself, every other value its compressed JSON text), a non-empty `extras` dictionary `["j", canonical JSON text]`. -/
+namespace GenXS
+open MalVerif.Ser (Key)
+section AG
+open MalVerif.Py
+
+def jKey : Key → Json | .i n => jI n | .s t => jS t
+def jD (kvs : List (Json × Json)) : Json :=
+  Json.arr #[jS "d", Json.arr (kvs.map (fun (e : Json × Json) => Json.arr #[e.1, e.2])).toArray]
+
+def atomToJson : PyAtom → Json
+  | .none => Json.null
+  | .int i => jI i
+  | .str t => jS t
+  | .strs l => Json.arr #[jS "l", jsonOfList jS l]
+  | .idmap d => jD (d.map (fun e => (jKey e.1, jS e.2)))
+  | .dictS d => Json.arr #[jS "t", jsonOfList (fun (e : String × String) => Json.arr #[jS e.1, jS e.2]) d]
+  | .json t => Json.arr #[jS "j", jS t]
+
+def dictAToJson (d : PyDictA) : Json := jD (d.map (fun e => (jS e.1, atomToJson e.2)))
+def docToJson (d : PyDoc) : Json := jD (d.map (fun top => (jS top.1, jD (top.2.map (fun e => (jS e.1, dictAToJson e.2))))))
+
+/-- what the generated `AttackGraph._to_dict` returns for the graph of the heap (or the class of the exception) -/
+def toDictJson (s : H) : Json :=
+  match Gen.graph__to_dict (s.attackers.length + 2) s with
+  | .ok d => docToJson d
+  | .error e => jO [("error", jS (GenX.pyErrName e))]
+
+/-- `gen_ag_todict {ops, pos}`: the history of `gen_ag_hist` replayed with the same glue (`GenX.agStepGen`, `saveLoadGen`,
+`deepcopyGen`); BEFORE every step whose index is listed in `pos` (and after the last step when `pos` lists `len(ops)`): the
+document of the generated `_to_dict` for the current graph and for the other side of a deep copy -/
+def opGenAgTodict (j : Json) : R Json := do
+  let ops ← jfield jarr j "ops"
+  let pos ← jfield (jlist jnat) j "pos"
+  let mut s : H := {}
+  let mut other : Option PyGraph := none
+  let mut outs : Array Json := #[]
+  let snap (p : Nat) (s : H) (other : Option PyGraph) : Json :=
+    jO [("pos", jN p), ("doc", toDictJson s),
+        ("other", match other with | some t => toDictJson (s.withGraph t) | none => Json.null)]
+  let mut i := 0
+  for o in ops do
+    if pos.contains i then outs := outs.push (snap i s other)
+    let k ← jfield jstr o "k"
+    if k == "save_load" then
+      match GenX.saveLoadGen s (← jfield jstr o "fmt") (← jfield jbool o "withModel") with
+      | .ok s' => s := s'; other := none
+      | .error _ => pure ()
+    else if k == "deepcopy" then
+      match GenX.deepcopyGen s with
+      | .ok (s', og) => s := s'; other := some og
+      | .error _ => pure ()
+    else if k == "switch" then
+      match other with
+      | some t =>
+        let cur := GenX.graphOf s
+        s := s.withGraph t
+        other := some cur
+      | none => throw "switch without deepcopy"
+    else
+      let (s', _, _) ← GenX.agStepGen s o
+      s := s'
+    s := GenX.normH s
+    i := i + 1
+  if pos.contains i then outs := outs.push (snap i s other)
+  pure (Json.arr outs)
+
+def parsePairs {α β} (fk : Json → R α) (fv : Json → R β) (j : Json) : R (List (α × β)) :=
+  jlist (fun e => do
+    match (← jarr e) with
+    | [k, v] => pure ((← fk k), (← fv v))
+    | _ => throw "bad pair") j
+
+def parseKey (j : Json) : R Key :=
+  match j with
+  | .str t => pure (.s t)
+  | _ => do pure (.i (← jint j))
+
+/-- a value of a node / attacker dictionary of a REAL document (ordered rendering above); Python values that `PyAtom`
+cannot express (floats, booleans, nested lists …) are refused -/
+def parseAtom (j : Json) : R PyAtom :=
+  match j with
+  | .null => pure .none
+  | .str t => pure (.str t)
+  | .num _ => do pure (.int (← jint j))
+  | .arr #[.str "l", l] => do pure (.strs (← jlist jstr l))
+  | .arr #[.str "d", d] => do pure (.idmap (← parsePairs parseKey jstr d))
+  | .arr #[.str "t", d] => do pure (.dictS (← parsePairs jstr jstr d))
+  | .arr #[.str "j", .str t] => pure (.json t)
+  | _ => throw s!"value not representable as PyAtom: {j.compress}"
+
+def parseD {α} (f : Json → R α) (j : Json) : R (List (String × α)) :=
+  match j with
+  | .arr #[.str "d", d] => parsePairs jstr f d
+  | _ => throw "dictionary expected"
+
+def parseDoc (j : Json) : R PyDoc := parseD (parseD (parseD parseAtom)) j
+
+/-- `gen_ag_fromdict {doc, withModel}`: the generated `AttackGraph._from_dict` on a document as the REAL file layer
+returned it; the loaded heap is observed like a step of `gen_ag_hist`, and saved again with the generated `_to_dict` -/
+def opGenAgFromdict (j : Json) : R Json := do
+  let d ← parseDoc (← jget j "doc")
+  let model : Option PyModel :=
+    if (← jfield jbool j "withModel") then some { get_asset_by_name := fun nm => some (GenX.assetOfName nm) } else none
+  match Gen.graph__from_dict {} d model with
+  | .error e => pure (jO [("err", jS (GenX.pyErrName e))])
+  | .ok (s', aux) =>
+    let s := GenX.normH { s' with nfresh := aux.nfresh, afresh := aux.afresh }
+    pure (jO [("err", Json.null), ("obs", GenX.obsH s), ("resaved", toDictJson s)])
+
+end AG
+
+/-! ##### instance models (`Py/GenMSerial`): `model__to_dict` on the heap built from the payload of `ser_model`, `model__from_dict`
+on REAL documents.  Rendering as above; additionally `["r", [[key, value], …]]` is a dictionary with a FIXED key set, which
+the prelude represents as a record: the order of its keys is not represented by the translation (the glue lists the fields
+that are present in the order of the structure declaration; the harness compares such a dictionary as a set of items),
+and `["f", text]` is a `float` (its canonical text). -/
+namespace M
+open MalVerif.PyM
+
+def jR (kvs : List (String × Option Json)) : Json :=
+  Json.arr #[jS "r", Json.arr (kvs.filterMap (fun (e : String × Option Json) => e.2.map (fun v => Json.arr #[jS e.1, v]))).toArray]
+def jF (t : String) : Json := Json.arr #[jS "f", jS t]
+def jJ (t : String) : Json := Json.arr #[jS "j", jS t]
+def jL (l : List Json) : Json := Json.arr #[jS "l", Json.arr l.toArray]
+
+def assetVToJson : PyAssetV → Json
+  | .str t => jS t
+  | .dict d => jR [("name", d.name.map jS), ("type", d.type.map jS),
+                   ("defenses", d.defenses.map (fun ds => jD (ds.map (fun e => (jS e.1, jF e.2))))), ("extras", d.extras.map jJ)]
+def targetsToJson : PyTargets → Json
+  | .list l => jL (l.map jKey)
+  | .one k => jKey k
+def assocVToJson : PyAssocV → Json
+  | .fields d => jD (d.map (fun e => (jS e.1, targetsToJson e.2)))
+  | .json t => jJ t
+def attDToJson (d : PyAttD) : Json :=
+  jR [("name", d.name.map jS),
+      ("entry_points", d.entry_points.map (fun eps => jD (eps.map (fun e =>
+          (jKey e.1, jR [("attack_steps", e.2.attack_steps.map (fun l => jL (l.map jS)))])))))]
+def metaToJson (m : PyMeta) : Json :=
+  jR [("name", m.name.map jS), ("langVersion", m.langVersion.map jS), ("langID", m.langID.map jS), ("malVersion", m.malVersion.map jS),
+      ("MAL-Toolbox Version", m.MAL_Toolbox_Version_hyphen.map jS), ("MAL Toolbox Version", m.MAL_Toolbox_Version_space.map jS),
+      ("info", m.info.map jS)]
+def docToJson (d : PyDoc) : Json :=
+  jR [("metadata", d.metadata.map metaToJson),
+      ("assets", d.assets.map (fun l => jD (l.map (fun e => (jKey e.1, assetVToJson e.2))))),
+      ("associations", d.associations.map (fun l => jL (l.map (fun a => jD (a.map (fun e => (jS e.1, assocVToJson e.2))))))),
+      ("attackers", d.attackers.map (fun l => jD (l.map (fun e => (jKey e.1, attDToJson e.2)))))]
+
+/-- the pjs range check of a defense value (`number`, minimum 0, maximum 1) on the canonical text of a float -/
+def floatOk (t : String) : Bool :=
+  match Json.parse t with
+  | .ok (.num n) => decide (0 ≤ n.mantissa) && decide (n.mantissa ≤ (10 : Int) ^ n.exponent)
+  | _ => false
+
+/-- `meta` = [lang_graph.metadata['version'], lang_graph.metadata['id'], maltoolbox.__version__] -/
+def senvOf (L : Lang) (m : ModelEnv) (j : Json) : R SEnv := do
+  match (← jfield (jlist jstr) j "meta") with
+  | [v, i, t] => pure { model := m, lang := L, floatOk := floatOk, lang_version := v, lang_id := i, toolbox_version := t }
+  | _ => throw "bad meta"
+
+def toDictJson (s : H) (env : SEnv) : Json :=
+  match Gen.model__to_dict s env with
+  | .ok d => docToJson d
+  | .error e => jO [("error", jS (GenXM.pyErrName e))]
+
+/-- `gen_ser_model {lang, ops, meta}`: the payload of `ser_model`; the heap is built by the generated mutators (the glue of
+`gen_model_hist`), then the generated `Model._to_dict` -/
+def opGenSerModel (j : Json) : R Json := do
+  let L ← Drv.parseLang (← jget j "lang")
+  let ops ← jfield jarr j "ops"
+  let mut s : H := { name := "hist" }
+  for o in ops do
+    let (s', err, _) ← GenXM.mStepGen L s o
+    match err with
+    | .str e => if e.startsWith "skip:" then return jO [("skip", jS e)]
+    | _ => pure ()
+    s := GenXM.normH s'
+  let env ← senvOf L (GenXM.envOf s) j
+  pure (jO [("doc", toDictJson s env), ("obs", Drv.obsM L (abs s))])
+
+def unrep {α} (what : String) : R α := throw s!"unrepresentable: {what}"
+
+/-- the items of a dictionary `["d", [[k, v], …]]` -/
+def items (what : String) (j : Json) : R (List (Json × Json)) :=
+  match j with
+  | .arr #[.str "d", d] => GenXS.parsePairs pure pure d
+  | _ => unrep s!"{what}: dictionary expected, got {j.compress}"
+def field (kvs : List (Json × Json)) (k : String) : Option Json :=
+  (kvs.find? (fun e => match e.1 with | .str t => t == k | _ => false)).map (·.2)
+def optField {α} (kvs : List (Json × Json)) (k : String) (f : Json → R α) : R (Option α) :=
+  match field kvs k with | some v => some <$> f v | none => pure none
+def pStr (what : String) (j : Json) : R String :=
+  match j with | .str t => pure t | _ => unrep s!"{what}: str expected, got {j.compress}"
+def pKey (what : String) (j : Json) : R Key :=
+  match j with
+  | .str t => pure (.s t)
+  | .num n => if n.exponent == 0 then pure (.i n.mantissa) else unrep s!"{what}: key {j.compress}"
+  | _ => unrep s!"{what}: key {j.compress}"
+def pJsonText (what : String) (j : Json) : R String :=
+  match j with | .arr #[.str "j", .str t] => pure t | _ => unrep s!"{what}: extras dictionary expected, got {j.compress}"
+def pList {α} (what : String) (f : Json → R α) (j : Json) : R (List α) :=
+  match j with | .arr #[.str "l", l] => jlist f l | _ => unrep s!"{what}: list expected, got {j.compress}"
+
+def pAssetV (j : Json) : R PyAssetV :=
+  match j with
+  | .str t => pure (.str t)
+  | _ => do
+    let kvs ← items "asset entry" j
+    pure (.dict { name := ← optField kvs "name" (pStr "asset name"), type := ← optField kvs "type" (pStr "asset type"),
+                  defenses := ← optField kvs "defenses" (fun d => do
+                    (← items "defenses" d).mapM (fun e => do
+                      let v ← match e.2 with
+                        | .arr #[.str "f", .str t] => pure t
+                        | x => unrep s!"defense value {x.compress}"
+                      pure ((← pStr "defense name" e.1), v))),
+                  extras := ← optField kvs "extras" (pJsonText "asset extras") })
+def pTargets (j : Json) : R PyTargets :=
+  match j with
+  | .arr #[.str "l", l] => do pure (.list (← jlist (pKey "association member") l))
+  | _ => do pure (.one (← pKey "association member" j))
+def pAssocV (j : Json) : R PyAssocV :=
+  match j with
+  | .arr #[.str "j", .str t] => pure (.json t)
+  | _ => do pure (.fields (← (← items "association fields" j).mapM (fun e => do pure ((← pStr "field name" e.1), (← pTargets e.2)))))
+def pAttD (j : Json) : R PyAttD := do
+  let kvs ← items "attacker entry" j
+  pure { name := ← optField kvs "name" (pStr "attacker name"),
+         entry_points := ← optField kvs "entry_points" (fun d => do
+           (← items "entry_points" d).mapM (fun e => do
+             let ep ← items "entry point" e.2
+             pure ((← pKey "entry point" e.1),
+                   ({ attack_steps := ← optField ep "attack_steps" (pList "attack_steps" (pStr "attack step")) } : PyEpD)))) }
+def pMeta (j : Json) : R PyMeta := do
+  let kvs ← items "metadata" j
+  let f (k : String) := optField kvs k (pStr s!"metadata {k}")
+  pure { name := ← f "name", langVersion := ← f "langVersion", langID := ← f "langID", malVersion := ← f "malVersion",
+         MAL_Toolbox_Version_hyphen := ← f "MAL-Toolbox Version", MAL_Toolbox_Version_space := ← f "MAL Toolbox Version", info := ← f "info" }
+def pDoc (j : Json) : R PyDoc := do
+  let kvs ← items "document" j
+  pure { metadata := ← optField kvs "metadata" pMeta,
+         assets := ← optField kvs "assets" (fun d => do (← items "assets" d).mapM (fun e => do pure ((← pKey "asset id" e.1), (← pAssetV e.2)))),
+         associations := ← optField kvs "associations" (pList "associations" (fun a => do
+           (← items "association entry" a).mapM (fun e => do pure ((← pStr "association key" e.1), (← pAssocV e.2))))),
+         attackers := ← optField kvs "attackers" (fun d => do (← items "attackers" d).mapM (fun e => do pure ((← pKey "attacker id" e.1), (← pAttD e.2)))) }
+
+/-- `gen_load_doc {lang, doc, meta}`: the generated `Model._from_dict` on a document as the REAL file layer returned it (or
+a hand-edited one).  pjs `==` (parameter `ModelEnv`): identity — inside `_from_dict` it is asked only of assets of the one
+model under construction, whose ids are pairwise distinct.  A document with a value the prelude types cannot hold is
+answered `unrepresentable: …` (not an error of the generated code). -/
+def opGenLoadDoc (j : Json) : R Json := do
+  let L ← Drv.parseLang (← jget j "lang")
+  let d ← pDoc (← jget j "doc")
+  let env ← senvOf L { eqA := fun _ _ => false, eqL := fun _ _ => false, whileFuel := (d.assets.getD []).length + 2 } j
+  match Gen.model__from_dict {} env d with
+  | .error e => pure (jO [("err", jS (GenXM.pyErrName e))])
+  | .ok s' =>
+    let s := GenXM.normH s'
+    pure (jO [("err", Json.null), ("name", jS s.name), ("loaded", Drv.obsM L (abs s)),
+              ("resaved", toDictJson s { env with model := GenXM.envOf s })])
+
+end M
+
+end GenXS
 
 def dispatch (j : Json) : R Json := do
   let op ← jfield jstr j "op"
@@ -1448,6 +1719,10 @@ def dispatch (j : Json) : R Json := do
   | "gen_legacy" => GenXLeg.opGenLegacy j
   | "gen_neo4j_model" => GenXNeo.opGenNeo4jModel j
   | "gen_neo4j_graph" => GenXNeo.opGenNeo4jGraph j
+  | "gen_ag_todict" => GenXS.opGenAgTodict j
+  | "gen_ag_fromdict" => GenXS.opGenAgFromdict j
+  | "gen_ser_model" => GenXS.M.opGenSerModel j
+  | "gen_load_doc" => GenXS.M.opGenLoadDoc j
   | _ => throw "bad-op"
 
 def handle (line : String) : String :=
